@@ -144,7 +144,7 @@ def known_class(f, what, sig):
 
 def PROOFS():
     from ..contracts import terms_c, matrices_c
-    return [("vf.contracts.matrices_c", matrices_c.FUNCTIONS), ("vf.contracts.terms_c", terms_c.FUNCTIONS)]
+    return [("vf.contracts.matrices_c", matrices_c.FUNCTIONS), ("vf.contracts.terms_c", ["formulae.terms.terms.GroupSpecificTerm.eval_new_data"])]
 
 
 def run(report, findings):
